@@ -96,8 +96,11 @@ def run_sv(args, timeout=1800, nounicode=False):
 # --------------------------------------------------------------------------- TLC
 
 def java_cmd(xmx="3g", deque=True):
+    # TLC leaves an (empty) tlc-<n> directory per run in java.io.tmpdir: keep them under work/
+    jtmp = WORK / "jtmp" / str(os.getpid())
+    jtmp.mkdir(parents=True, exist_ok=True)
     cmd = ["java", "-XX:+UseParallelGC", "-Xss1g", "-Xmx" + xmx,
-           "-DTLA-Library=" + TLA_LIB]
+           "-DTLA-Library=" + TLA_LIB, "-Djava.io.tmpdir=" + str(jtmp)]
     if deque:
         cmd.append("-Dtlc2.tool.queue.IStateQueue=StateDeque")
     cmd += ["-cp", JAVA_CP, "tlc2.TLC"]
@@ -508,3 +511,5 @@ def main(argv):
     except ToolError as e:
         log("TOOL ERROR: " + str(e))
         return 2
+    finally:
+        shutil.rmtree(WORK / "jtmp" / str(os.getpid()), ignore_errors=True)
